@@ -84,6 +84,8 @@ class SendRig:
         self.picks = []
         self.bufobj = {}
         self.order = []
+        self.req_open = {}
+        self.data_sent = {}
         self.reader = self.rig.reader
         self.rig.feed(self.client.data_to_send())
         self.driver.run()
@@ -156,17 +158,35 @@ class SendRig:
         self.driver.step(self.reader)
         self._drain_client()
 
-    def open(self, sid, script):
+    def open(self, sid, script, body_open=False):
         self.scripts[sid] = script
-        self.client.send_headers(sid, [(b":method", b"GET"), (b":path", b"/s%d" % sid), (b":scheme", b"https"),
-                                       (b":authority", b"example.com")], end_stream=True)
+        self.req_open[sid] = body_open
+        self.client.send_headers(sid, [(b":method", b"POST" if body_open else b"GET"), (b":path", b"/s%d" % sid),
+                                       (b":scheme", b"https"), (b":authority", b"example.com")], end_stream=not body_open)
         n = len(self.spawn_order)
         self._reader_step()
         assert len(self.spawn_order) == n + 1
         name = self.spawn_order[-1]
         self.app_tasks[sid] = [t for t in self.driver.tasks if t.name == name][0]
         self.bufobj[sid] = self.p.stream_buffers.get(sid)
-        self.order.append(sid)
+        if sid not in self.order:
+            self.order.append(sid)
+
+    def priority(self, sid, depends_on=0, weight=16, exclusive=False):
+        self.client.prioritize(sid, weight=weight, depends_on=depends_on, exclusive=exclusive)
+        self._reader_step()
+        for x in (depends_on, sid):
+            if x and x not in self.order:
+                self.order.append(x)
+
+    def data(self, sid, n):
+        self.client.send_data(sid, b"d" * n)
+        self._reader_step()
+
+    def end_request(self, sid):
+        self.client.end_stream(sid)
+        self.req_open[sid] = False
+        self._reader_step()
 
     def win(self, sid, n):
         self.client.increment_flow_control_window(n, sid if sid else None)
@@ -204,9 +224,13 @@ class SendRig:
         p, conn = self.p, self.p.connection
         per = []
         for sid in self.order:
+            tree = sid in self.tree._streams
+            if sid not in self.bufobj:
+                per.append([sid, 0, False, False, False, False, False, tree, (not self.tree._streams[sid].active) if tree else -1,
+                            "closed", False, True])
+                continue
             b = self.bufobj[sid]
             inbufs = sid in p.stream_buffers and p.stream_buffers[sid] is b
-            tree = sid in self.tree._streams
             h2open = sid in conn.streams and conn.streams[sid].state_machine.state in (
                 h2.stream.StreamState.OPEN, h2.stream.StreamState.HALF_CLOSED_REMOTE)
             t = self.app_tasks[sid]
@@ -222,7 +246,7 @@ class SendRig:
         else:
             task = 1
         return [per, p.has_data.is_set(), p.closed, conn.outbound_flow_control_window, st.runnable(), task, False,
-                len(self.frames)]
+                self.reader.error is None, len(self.frames)]
 
     def frame_obs(self):
         out = []
@@ -280,17 +304,22 @@ def gen_case(seed):
     groups, obs = [], []
     next_sid = 1
     nsteps = rng.choice([6, 12, 25, 40])
-    stats = {"open": 0, "win": 0, "connwin": 0, "iw": 0, "reset": 0, "eof": 0, "app": 0, "send": 0, "kinds": {}}
+    stats = {"open": 0, "win": 0, "connwin": 0, "iw": 0, "reset": 0, "eof": 0, "app": 0, "send": 0, "priority": 0, "data": 0,
+             "ended": 0, "kinds": {}}
     eofed = False
     for _ in range(nsteps):
         choices = []
         if not eofed:
-            if len(rig.order) < 4:
-                choices += ["open"] * (3 if not rig.order else 1)
+            if len(rig.app_tasks) < 4:
+                choices += ["open"] * (3 if not rig.app_tasks else 1)
             if rig.order:
-                choices += ["win", "win", "connwin", "iw", "reset"]
+                choices += ["win", "win", "connwin", "iw", "reset", "priority"]
+            if any(rig.req_open.get(x) and _can_update(rig.client, x) for x in rig.order):
+                choices += ["data", "ended"]
+            if rng.random() < 0.15:
+                choices += ["priority"]
             choices += ["eof"] if rng.random() < 0.08 else []
-        runnable_apps = [s for s in rig.order if rig.app_tasks[s].runnable()]
+        runnable_apps = [s for s in rig.order if s in rig.app_tasks and rig.app_tasks[s].runnable()]
         choices += ["app"] * (3 * len(runnable_apps))
         if rig.send_task.runnable():
             choices += ["send"] * 4
@@ -303,7 +332,7 @@ def gen_case(seed):
             stats["kinds"][kind] = stats["kinds"].get(kind, 0) + 1
             sid = next_sid
             next_sid += 2
-            rig.open(sid, script)
+            rig.open(sid, script, body_open=rng.random() < 0.3)
             groups.append(f"GClient (COpen {sid} [{'; '.join(prog)}])")
         elif a == "win":
             live = [s for s in rig.order if _can_update(rig.client, s)]
@@ -328,6 +357,31 @@ def gen_case(seed):
             sid = rng.choice(live)
             rig.reset(sid)
             groups.append(f"GClient (CReset {sid})")
+        elif a == "priority":
+            # any stream: open, closed, reset, or an idle one that has not been requested yet
+            cands = list(rig.order) + [next_sid]
+            sid = rng.choice(cands)
+            deps = [0] + [x for x in rig.order if x != sid]
+            dep = rng.choice(deps)
+            try:
+                rig.priority(sid, depends_on=dep, weight=rng.choice([1, 16, 256]), exclusive=rng.random() < 0.3)
+            except Exception:  # noqa: BLE001  (the client library refused to build the frame)
+                continue
+            groups.append(f"GClient (CPriority {sid} {dep})")
+        elif a in ("data", "ended"):
+            live = [x for x in rig.order if rig.req_open.get(x) and _can_update(rig.client, x)]
+            if not live:
+                continue
+            sid = rng.choice(live)
+            if a == "data":
+                if rig.data_sent.get(sid, 0) >= 3:
+                    continue
+                rig.data_sent[sid] = rig.data_sent.get(sid, 0) + 1
+                rig.data(sid, rng.choice([1, 100, 5000]))
+                groups.append(f"GClient (CData {sid})")
+            else:
+                rig.end_request(sid)
+                groups.append(f"GClient (CEnded {sid})")
         elif a == "eof":
             rig.eof()
             eofed = True
